@@ -24,3 +24,8 @@ claim("C07", "other",
       "path enumeration over a CFG + list-length symbolic domain + who-may-write census", "DESIGN.md §4 C07")
 for _p in ["C07", "C19"]:
     NA.pop(_p, None)
+claim("C14", "other",
+      "Census of every writer of module index/parent, pattern owner and the project's module/pattern lists across all files; all 25 paths of attach_module enumerated: index = insertion position and parent = project on every inserting path, gap-fill decision exactly `not loading and None in modules`, refusal and already-attached cases before any mutation; attach_pattern refusal precedes mutation; Output at position 0 on construction and on load; Note.mod / module_index / Module.__int__ affine inverse. Reachable-state coherence follows inductively from these per-operation obligations.",
+      "trusted: sa/cfg.py path enumeration and dominators; list.index / list.append semantics",
+      "who-may-write census + path enumeration with dominating-condition extraction + affine identities", "DESIGN.md §4 C14")
+NA.pop("C14", None)
